@@ -33,22 +33,6 @@ def c05_const_inequality_float_tie(c, k):
     return False
 
 
-@matcher('c10_proplogic_norm_full_complementary')
-def c10_proplogic_norm_full_complementary(c, k):
-    """proplogic.norm_full collapses a complementary pair A, ~A inside a conjunction (disjunction) to false (true) only for
-    some orders/nestings of the members; otherwise it returns the sorted members.  Covered: the members contain a
-    complementary pair, the two normal forms differ and at least one of them contains the collapsed constant (the other keeps the
-    pair, or collapses only partly as in `B | true`)."""
-    if c.get('kind') != 'conv-canonical:proplogic.norm_full':
-        return False
-    ms = set(c.get('members', []))
-    comp = any(('~' + m) in ms for m in ms)
-    const, sep = ('false', ' & ') if c.get('fam') == 'conj' else ('true', ' | ')
-    has = lambda nf: const in nf.split(sep)
-    # the collapse happens for one arrangement and not (or only partly, e.g. `B | true`) for the other
-    return comp and c.get('nf1') != c.get('nf2') and (has(c.get('nf1', '')) or has(c.get('nf2', '')))
-
-
 @matcher('c10_int_norm_conv_eval_differs')
 def c10_int_norm_conv_eval_differs(c, k):
     """integer.int_norm_conv.eval (from_poly(convert_to_poly t)) and its proof term (simp_full + rewrites) produce
